@@ -12,16 +12,22 @@ import (
 
 func (c *conn) sendLoop(ctx async.Context) status.Status {
 	for {
+		// Get the wait channel before reading, otherwise a message queued after
+		// the last read can be missed and stay in the queue unsent.
+		wait := c.writeq.ReadWait()
+
 		// Write pending messages
-		b, ok, st := c.writeq.Read()
-		switch {
-		case !st.OK():
-			return st
-		case ok:
+		for {
+			b, ok, st := c.writeq.Read()
+			if !st.OK() {
+				return st
+			}
+			if !ok {
+				break
+			}
 			if st := c.sendMessage(b); !st.OK() {
 				return st
 			}
-			continue
 		}
 
 		// Flush buffered writes
@@ -33,7 +39,7 @@ func (c *conn) sendLoop(ctx async.Context) status.Status {
 		select {
 		case <-ctx.Wait():
 			return ctx.Status()
-		case <-c.writeq.ReadWait():
+		case <-wait:
 		}
 	}
 }
